@@ -13,10 +13,11 @@ def sh(cmd, **kw):
 
 def main():
     pid, out = sys.argv[1], sys.argv[2]
-    checks = [pid]; tier = "quick"
+    checks = [pid]; tier = "quick"; tag = ""
     for i, a in enumerate(sys.argv):
         if a == "--checks": checks = sys.argv[i + 1].split(",")
         if a == "--tier": tier = sys.argv[i + 1]
+        if a == "--tag": tag = sys.argv[i + 1]
     meta = json.load(open(os.path.join(out, "meta.json")))
     for ch in meta["changes"]:
         x = ch["id"]; wt = "/tmp/sv_%s_%s" % (pid, x)
@@ -60,7 +61,7 @@ def main():
             res["detected_by_own_check"] = res["checks"].get(pid, {}).get("exit") == 1
             valid = res["existing_tests_pass_with_change"] and res["demo_exit_unchanged"] == 0 and res["demo_exit_changed"] not in (0,) and not str(res["demo_exit_changed"]).startswith("compile")
             res["valid_seed"] = bool(valid)
-            dst = os.path.join(ROOT, "seeded", "%s_%s" % (pid, x)); os.makedirs(dst, exist_ok=True)
+            dst = os.path.join(ROOT, "seeded", "%s_%s%s" % (pid, x, tag)); os.makedirs(dst, exist_ok=True)
             shutil.copy(patch, os.path.join(dst, "patch.diff")); shutil.copy(demo, os.path.join(dst, "demo.cpp"))
             json.dump(res, open(os.path.join(dst, "meta.json"), "w"), indent=1)
             print(pid, x, "valid" if valid else "INVALID", "tests_pass=%s demo=%s/%s" % (res["existing_tests_pass_with_change"], res["demo_exit_unchanged"], res["demo_exit_changed"]),
